@@ -8,6 +8,7 @@ WJ(n) == [op |-> "waitjob", n |-> n]
 WS == [op |-> "wait", n |-> "sigint"]     \* a wait during which Ctrl-C may arrive
 K == [op |-> "kill", n |-> NONE]
 R == [op |-> "restart", n |-> NONE]
+NX == [op |-> "newxp", n |-> NONE]       \* a second experiment in the same program
 
 NoTok == [t \in {} |-> 0]
 AllFixed == {"F2", "F3", "F4"}
@@ -92,12 +93,22 @@ StopRestartTok(fix) ==
      [a |-> [t |-> 1], b |-> [t |-> 1]], Ok({"a", "b"}),
      <<Sub("a"), Sub("b"), WS, R, Sub("a"), Sub("b"), W>>, fix)
 
+(* the output of a job of the first experiment used by the second one, which does not submit that job again *)
+Reuse(codes, fix) ==
+  Mk({"a", "b", "c"}, One({"a", "b", "c"}), [a |-> {}, b |-> {"a"}, c |-> {}], {}, NoTok, NoReq({"a", "b", "c"}), codes,
+     <<Sub("a"), W, NX, Sub("b"), Sub("c"), W>>, fix)
+ReuseAgain(codes, fix) ==
+  Mk({"a", "b"}, [a |-> 2, b |-> 1], [a |-> {}, b |-> {"a"}], {}, NoTok, NoReq({"a", "b"}), codes,
+     <<Sub("a"), W, NX, Sub("a"), Sub("b"), W>>, fix)
+
 Codes3 == {[a |-> <<x>>, b |-> <<y>>, c |-> <<z>>] : x, y, z \in {0, 1}}
 
 WorkloadsDag == {Chain3(c, AllFixed) : c \in Codes3}
                   \cup {Chain3([a |-> <<0>>, b |-> <<9>>, c |-> <<0>>], AllFixed)}
                   \cup {Chain3([a |-> <<0>>, b |-> <<8>>, c |-> <<0>>], AllFixed)}      \* b's process cannot be started      \* b's process is killed (no marker, stale pid file)
                   \cup {Diamond([a |-> <<0>>, b |-> <<x>>, c |-> <<y>>, d |-> <<0>>], AllFixed) : x, y \in {0, 1}}
+                  \cup {Reuse([a |-> <<x>>, b |-> <<0>>, c |-> <<y>>], AllFixed) : x, y \in {0, 1}}
+                  \cup {ReuseAgain([a |-> <<1, 0>>, b |-> <<0>>], AllFixed), ReuseAgain([a |-> <<0>>, b |-> <<0>>], AllFixed)}
 WorkloadsTok == {Tok(3, 2, 2, 1, Ok({"a", "b", "c"}), AllFixed), Tok(3, 1, 1, 3, Ok({"a", "b", "c"}), AllFixed),
                  Tok(1, 1, 1, 1, Ok({"a", "b", "c"}), AllFixed),
                  Tok(2, 2, 1, 2, [a |-> <<1>>, b |-> <<0>>, c |-> <<0>>], AllFixed),
